@@ -71,6 +71,11 @@ LEGACY["zero-choice-column"] = {"survey": [{"type": "select_one c", "name": "s",
                                 "choices": [{"list_name": "c", "name": "x", "label": "X", "w": "0"}, {"list_name": "c", "name": "y", "label": "Y", "w": "1"}]}
 LEGACY["trigger-forms"] = {"survey": [{"type": "text", "name": "a", "label": "A"}, {"type": "calculate", "name": "k", "calculation": "now()", "trigger": "${a}"},
                                       {"type": "background-geopoint", "name": "bg", "trigger": "${a}"}, {"type": "text", "name": "t", "label": "T", "trigger": "${a}", "calculation": "1"}]}
+LEGACY["group-body-last-saved"] = {"survey": [{"type": "text", "name": "q", "label": "Q"},
+                                              {"type": "begin group", "name": "g", "label": "G", "body::acc": "${last-saved#q}", "appearance": "field-list"},
+                                              {"type": "text", "name": "i", "label": "I"}, {"type": "end group"},
+                                              {"type": "begin repeat", "name": "r", "label": "R", "body::acc": "${q}", "instance::x": "${q}"},
+                                              {"type": "text", "name": "j", "label": "J", "body::acc": "${i}", "instance::y": "${last-saved#q}"}, {"type": "end repeat"}]}
 KNOWN_LEGACY = {
     # explicitly empty cells of dict input (no spreadsheet reader produces them)
     "empty-title": {"survey": [{"type": "text", "name": "q", "label": "Q"}], "settings": [{"form_title": "", "form_id": "f1"}]},
